@@ -23,6 +23,9 @@ Lookahead == 4
 \* Memory: the bytes allocated by a call on a multi-megabyte input (alloc, measured by the
 \* harness around the call; 0 = not measured) stay within a base plus a per-token allowance of
 \* the limit: they do not follow the size of the input.
+\* a negative limit (outside the statement's quantifier, but accepted by the entry points) allows
+\* the work of zero tokens: only an input without any token fits it
+Budget(limit) == IF limit < 0 THEN 0 ELSE limit
 AllocBase == 1048576
 AllocPerToken == 4096
 
@@ -32,7 +35,7 @@ Fold(c, toks) ==
         ELSE IF e[1] = "L" THEN
                LET lx == a.lexed + 1 IN
                IF a.hit THEN [a EXCEPT !.bad = "lexer called after the limit error"]
-               ELSE IF c.limit # 0 /\ lx > c.limit + Lookahead THEN [a EXCEPT !.bad = "lexer calls exceed the limit by more than the look-ahead bound"]
+               ELSE IF c.limit # 0 /\ lx > Budget(c.limit) + Lookahead THEN [a EXCEPT !.bad = "lexer calls exceed the limit by more than the look-ahead bound"]
                ELSE IF lx > a.count + Lookahead THEN [a EXCEPT !.bad = "lexer further ahead of the token count than the look-ahead bound"]
                ELSE IF e[3] < a.lastStart THEN [a EXCEPT !.bad = "lexer went backwards"]
                ELSE IF c.hasSrc /\ e[2] \notin {"EOF", "Invalid"} /\
@@ -55,7 +58,7 @@ Fold(c, toks) ==
 \* own), so the call succeeds exactly when every source parses and fits.
 MultiVerdict(c) ==
   LET Ns == [k \in 1..Len(c.srcs) |-> Len(SelectSeq(LexAll(c.srcs[k]).toks, LAMBDA t : t.k # "EOF"))]
-      fits == c.limit = 0 \/ \A k \in 1..Len(c.srcs) : Ns[k] <= c.limit
+      fits == c.limit = 0 \/ \A k \in 1..Len(c.srcs) : Ns[k] <= Budget(c.limit)
   IN IF c.ok # (c.ok0 /\ fits) THEN "limit not exact for a list of sources: ok=" \o ToString(c.ok) \o " although unlimited ok=" \o ToString(c.ok0)
                                       \o ", tokens per source=" \o ToString(Ns) \o ", limit=" \o ToString(c.limit)
      ELSE IF c.ok /\ c.tree # c.tree0 THEN "tree of a list of sources under a sufficient limit differs from the unlimited tree"
@@ -65,7 +68,7 @@ SingleVerdict(c) ==
   LET lex  == IF c.hasSrc THEN LexAll(c.src) ELSE [toks |-> <<>>, err |-> FALSE]
       N    == IF c.hasSrc THEN Len(SelectSeq(lex.toks, LAMBDA t : t.k # "EOF")) ELSE c.n
       a    == Fold(c, lex.toks)
-      fits == c.limit = 0 \/ N <= c.limit
+      fits == c.limit = 0 \/ N <= Budget(c.limit)
   IN IF c.hasSrc /\ ~lex.err /\ N # c.n THEN "harness token count differs from the specification's"
      ELSE IF a.bad # "" THEN a.bad
      ELSE IF c.ok # (c.ok0 /\ fits) THEN "limit not exact: ok=" \o ToString(c.ok) \o " although unlimited ok=" \o ToString(c.ok0) \o ", tokens=" \o ToString(N) \o ", limit=" \o ToString(c.limit)
@@ -75,7 +78,7 @@ SingleVerdict(c) ==
      \* (an input that does not parse anyway may end in the limit error instead of its syntax error when
      \* the parser consumes the end-of-input token while recovering: the statement only says it fails)
      ELSE IF c.ok0 /\ fits /\ a.hit THEN "limit check fired although the input parses and fits"
-     ELSE IF c.limit # 0 /\ c.alloc > AllocBase + AllocPerToken * c.limit
+     ELSE IF c.limit # 0 /\ c.alloc > AllocBase + AllocPerToken * Budget(c.limit)
           THEN "memory allocated under the limit follows the input size: " \o ToString(c.alloc) \o " bytes under limit " \o ToString(c.limit)
      ELSE "ok"
 
